@@ -85,11 +85,6 @@ def RSym.linked : RSym → Option Nat
   | .nonSetComp chain _ => (chain.getLast?).bind Atom.linked
   | .compSet iter _ _ => (iter.getLast?).bind Atom.linked
 
-/-- the entity type the whole dotted path leads to (path semantics) -/
-def RSym.pathLinked : RSym → Option Nat
-  | .compSet _ (x :: xs) _ => ((x :: xs).getLast?).bind Atom.linked
-  | r => r.linked
-
 def lookupSym (defs : List StoreDef) (st : Nat) (n : String) : Option Atom :=
   match defs[st]? with
   | none => none
@@ -149,11 +144,40 @@ def dbSigma (defs : List StoreDef) : Sigma Nat where
   sym t n := (resolve defs t (splitName n)).map fun r => (r.ty, r.isSet)
   setTypes t n := (resolve defs t (splitName n)).bind RSym.linked
 
-/-- the symbol tables of the specification: a sub-query is typed against the entity type its path
-    leads to -/
+/-! ### dotted names by path semantics (the specification's reading, independent of `compose`)
+
+  A dotted name follows links: `p.q.r` on store `st` is symbol `p` of `st`, then `q.r` on the store
+  `p` links to.  `x.id` is `x` itself; `m.k` for a map symbol `m` is its element `k`. -/
+
+def specPath (defs : List StoreDef) : Nat → List String → Option (List Atom)
+  | _, [] => none
+  | st, [p] => (lookupSym defs st p).map fun a => [a]
+  | st, p :: q :: rest =>
+    match defs[st]? with
+    | none => none
+    | some d =>
+      match d.maps.lookup p with
+      | some ty => if rest.isEmpty then some [.mapElem st p q ty] else none
+      | none =>
+        match lookupSym defs st p with
+        | some first =>
+          (match first.linked with
+           | some st' =>
+             (match first with
+              | .id => none
+              | _ => (specPath defs st' (q :: rest)).map fun tail =>
+                  if tail = [Atom.id] then [first] else first :: tail)
+           | none => none)
+        | none => none
+
+def pathIsSet (p : List Atom) : Bool := p.any Atom.isSet
+def pathTy (p : List Atom) : NodeType := (p.getLast?.map Atom.ty).getD .other
+def pathLinked (p : List Atom) : Option Nat := p.getLast?.bind Atom.linked
+
+/-- the symbol tables of the specification -/
 def dbSpecSigma (defs : List StoreDef) : Sigma Nat where
-  sym t n := (resolve defs t (splitName n)).map fun r => (r.ty, r.isSet)
-  setTypes t n := (resolve defs t (splitName n)).bind RSym.pathLinked
+  sym t n := (specPath defs t (splitName n)).map fun p => (pathTy p, pathIsSet p)
+  setTypes t n := (specPath defs t (splitName n)).bind pathLinked
 
 /-! ### evaluation on rows -/
 
@@ -249,14 +273,6 @@ def cursorKeys (db : Db F) (r : RSym) (rowId : Option Bytes) : List (SVal F) :=
   | .compSet iter _ _ => stackedElems db iter rowId
   | r => modelElems db r rowId
 
-/-- `OpenSetCursor(name)` contents by path semantics -/
-def specElems (db : Db F) (r : RSym) (rowId : Option Bytes) : List (SVal F) :=
-  match r with
-  | .atom (.set st k ty l) => levelVals db (.set st k ty l) rowId
-  | .compSet iter [] _ => pathElems db iter rowId
-  | .compSet iter last _ => (pathElems db iter rowId).map fun v => evalChain db last (linkKey v)
-  | _ => []
-
 /-- `symbol.Eval` of a non-set symbol on a row -/
 def symVal (db : Db F) (r : RSym) (rowId : Option Bytes) : SVal F :=
   match r with
@@ -295,15 +311,15 @@ def modelWorld (db : Db F) : World Ctx F where
   nilRow c := c.2.isNone
 
 def specWorld (db : Db F) : World Ctx F where
-  val c n := match resolve db.defs c.1 (splitName n) with
-    | some r => symVal db r c.2
+  val c n := match specPath db.defs c.1 (splitName n) with
+    | some p => if pathIsSet p then .nil else evalChain db p c.2
     | none => .nil
-  elems c n := match resolve db.defs c.1 (splitName n) with
-    | some r => specElems db r c.2
+  elems c n := match specPath db.defs c.1 (splitName n) with
+    | some p => if pathIsSet p then pathElems db p c.2 else []
     | none => []
   seekable _ _ := false
-  subRows c n := match resolve db.defs c.1 (splitName n) with
-    | some r => subRowsOf r.pathLinked (specElems db r c.2)
+  subRows c n := match specPath db.defs c.1 (splitName n) with
+    | some p => if pathIsSet p then subRowsOf (pathLinked p) (pathElems db p c.2) else []
     | none => []
   nilRow _ := false
 
@@ -326,36 +342,60 @@ def specQuery (db : Db F) (fo : FloatOps F) (st : Nat) (f : U F) : List Bytes :=
 
 /-! ### hypotheses of `query_exact` -/
 
-/-- The cursor keys of the symbol are its elements: not a composite set symbol with a non-iterable
-    tail (a set followed by two or more links, e.g. `groups.boss.boss`).  For those a sub-query
-    visits the keys of the iterable part (`groups`) and takes its symbol table from there, not from
-    the entities the full path leads to. -/
-def RSym.plainCursor : RSym → Bool
-  | .compSet _ (_ :: _) _ => false
-  | _ => true
+def RSym.hasTail : RSym → Bool
+  | .compSet _ (_ :: _) _ => true
+  | _ => false
 
-def namePlain (defs : List StoreDef) (t : Nat) (n : String) : Bool :=
-  match resolve defs t (splitName n) with
-  | some r => r.plainCursor
-  | none => true
+/-- The resolution of the name never composes a link onto a composite set symbol that carries a
+    non-iterable tail (`getChain()` drops that tail): true of every name with at most three
+    segments, and of longer ones unless a set.link.link… suffix is prefixed by further links
+    (`boss.groups.boss.label`). -/
+def regularParts (defs : List StoreDef) : Nat → List String → Bool
+  | _, [] => true
+  | _, [_] => true
+  | st, p :: q :: rest =>
+    match defs[st]? with
+    | none => true
+    | some d =>
+      match d.maps.lookup p with
+      | some _ => true
+      | none =>
+        match lookupSym defs st p with
+        | some first =>
+          (match first.linked with
+           | some st' =>
+             regularParts defs st' (q :: rest) &&
+               (match resolve defs st' (q :: rest) with
+                | some r => !r.hasTail
+                | none => true)
+           | none => true)
+        | none => true
 
-/-- every symbol a sub-query ranges over (resolved in the symbol table where it is used) has a
+/-- the name resolves regularly and, when `sub` (it is the symbol of a sub-query), to a symbol whose
+    cursor keys are its elements (no non-iterable tail) -/
+def nameOK (defs : List StoreDef) (sub : Bool) (t : Nat) (n : String) : Bool :=
+  regularParts defs t (splitName n) &&
+    (!sub || (match resolve defs t (splitName n) with
+              | some r => !r.hasTail
+              | none => true))
+
+/-- every symbol of the filter resolves regularly, and every symbol a sub-query ranges over has a
     plain cursor -/
-def subQueriesPlain (defs : List StoreDef) : Nat → U F → Bool
-  | _, .sym _ => true
-  | _, .setFn _ _ => true
+def namesOK (defs : List StoreDef) : Nat → U F → Bool
+  | t, .sym n => nameOK defs false t n
+  | t, .setFn _ n => nameOK defs false t n
   | t, .setFnSub _ n q _ _ =>
-    namePlain defs t n &&
+    nameOK defs true t n &&
       (match (dbSigma defs).setTypes t n with
-       | some t' => subQueriesPlain defs t' q
+       | some t' => namesOK defs t' q
        | none => true)
   | _, .boolC _ => true
-  | t, .cmp _ l _ => subQueriesPlain defs t l
-  | t, .inArr l _ => subQueriesPlain defs t l
-  | t, .between l _ _ => subQueriesPlain defs t l
-  | t, .notE e => subQueriesPlain defs t e
-  | t, .unot e => subQueriesPlain defs t e
-  | t, .logic _ l r => subQueriesPlain defs t l && subQueriesPlain defs t r
+  | t, .cmp _ l _ => namesOK defs t l
+  | t, .inArr l _ => namesOK defs t l
+  | t, .between l _ _ => namesOK defs t l
+  | t, .notE e => namesOK defs t e
+  | t, .unot e => namesOK defs t e
+  | t, .logic _ l r => namesOK defs t l && namesOK defs t r
 
 /-- set sub-buckets hold strictly increasing string keys (true of every bbolt bucket written by
     `SetStringList` / link collections) -/
